@@ -7,18 +7,26 @@
 (* static visibility law for every reader.                                                    *)
 EXTENDS GlomFrames
 
-CONSTANTS MaxDepth, SecondDepth
+CONSTANTS MaxDepth, SecondDepth,
+          Family     \* which binders / readers populate the trees: "scope" | "vars" | "ref"
 
 L(k, a) == N(k, a, <<>>)
-Leafs == {L("sbind", "x"), L("abind", "x"), L("read", "x"), L("fail", ""), L("gbind", "g"), L("gread", "g")}
+Leafs == CASE Family = "scope" -> {L("sbind", "x"), L("abind", "x"), L("read", "x"), L("fail", ""), L("gbind", "g"), L("gread", "g")}
+           [] Family = "vars"  -> {L("vbind", "v"), L("vset", "v"), L("vread", "v"), L("fail", "")}
+           [] Family = "ref"   -> {L("refuse", "r"), L("mark", ""), L("fail", "")}
+Unary == CASE Family = "scope" -> {<<"spec", "x">>, <<"fill", "">>, <<"match", "">>}
+           [] Family = "vars"  -> {<<"fill", "">>}
+           [] Family = "ref"   -> {<<"refdef", "r">>}
 Bin == {"tup", "pipe", "dict", "coal", "or", "and", "switch", "mdict"}
 RECURSIVE Trees(_)
 Trees(d) ==
   IF d = 0 THEN Leafs
   ELSE LET S == Trees(d - 1) IN
        Leafs \cup {N(k, "", <<a, b>>) : k \in Bin, a \in S, b \in S}
-             \cup {N("spec", "x", <<a>>) : a \in S} \cup {N(m, "", <<a>>) : m \in {"fill", "match"}, a \in S}
+             \cup {N(u[1], u[2], <<a>>) : u \in Unary, a \in S}
 
+RECURSIVE HasKindR(_, _)
+HasKindR(t, ks) == t.k \in ks \/ \E i \in 1..Len(t.c) : HasKindR(t.c[i], ks)
 RECURSIVE NoDict(_)
 NoDict(t) == t.k \notin {"dict", "mdict"} /\ \A i \in 1..Len(t.c) : NoDict(t.c[i])
 RECURSIVE WellModed(_, _)
@@ -26,6 +34,16 @@ WellModed(t, mode) ==
   /\ (t.k \in {"tup", "dict"} => mode # "MATCH")
   /\ (t.k = "mdict" => mode = "MATCH" /\ NoDict(t.c[1]))
   /\ \A i \in 1..Len(t.c) : WellModed(t.c[i], IF t.k \in {"auto", "fill", "match"} THEN ModeOf(t.k) ELSE mode)
+\* a definition never contains a use of a name (no unbounded recursion in this universe; recursion on
+\* nested data is exercised by C03)
+RECURSIVE NoSelfRef(_)
+NoSelfRef(t) == (t.k = "refdef" => ~HasKindR(t.c[1], {"refuse"})) /\ \A i \in 1..Len(t.c) : NoSelfRef(t.c[i])
+\* every Ref(name) use has a definition in scope (an unresolved Ref raises a plain KeyError, about
+\* which the property says nothing): decided with the static visibility rule itself
+RECURSIVE RefsResolved(_, _, _)
+RefsResolved(root, t, p) ==
+  /\ (t.k = "refuse" => VisibleFrom(root, p, "ref:" \o t.a) # <<0>>)
+  /\ \A i \in 1..Len(t.c) : RefsResolved(root, t.c[i], Append(p, i))
 RECURSIVE HasKind(_, _)
 HasKind(t, ks) == t.k \in ks \/ \E i \in 1..Len(t.c) : HasKind(t.c[i], ks)
 
@@ -37,9 +55,10 @@ Pick ==
   /\ phase = 0 /\ phase' = 1
   /\ caller' \in BOOLEAN
   /\ \/ \E k \in Bin, a \in Top, b \in Trees(SecondDepth) : tree' = N(k, "", <<a, b>>) \/ tree' = N(k, "", <<b, a>>)
-     \/ \E a \in Top : tree' = N("spec", "x", <<a>>) \/ tree' = N("fill", "", <<a>>) \/ tree' = N("match", "", <<a>>)
-  /\ WellModed(tree', "AUTO")
-  /\ HasKind(tree', {"read", "gread"}) /\ HasKind(tree', {"sbind", "abind", "spec", "gbind"})
+     \/ \E a \in Top, u \in Unary : tree' = N(u[1], u[2], <<a>>)
+  /\ WellModed(tree', "AUTO") /\ NoSelfRef(tree') /\ RefsResolved(tree', tree', <<>>)
+  /\ (Family # "scope" => ~caller')
+  /\ HasKind(tree', {"read", "gread", "vread", "refuse", "mark"}) /\ HasKind(tree', {"sbind", "abind", "spec", "gbind", "vbind", "refdef"})
   /\ LET r == Start(tree', <<>>, IF caller' THEN << <<"x", <<"c">> >> >> ELSE <<>>) IN
        run' = [log |-> r.st.log, out |-> r.out, acts |-> r.st.acts]
 Next == Pick
@@ -49,6 +68,10 @@ Next == Pick
 VisibilityLaw ==
   phase = 1 => \A i \in 1..Len(run.log) :
      (run.log[i].what = "read" /\ NodeAt(tree, run.log[i].p).k = "read") => ReadAgrees(tree, run.log[i], "x", caller)
+\* Ref(name) evaluates the nearest enclosing / chained definition
+RefLaw == phase = 1 => \A i \in 1..Len(run.log) : run.log[i].what = "refuse" => RefAgrees(tree, run.log[i], "r")
+\* Vars objects: fresh per evaluation of their binder, visible like any S binding, hold the latest assignment
+VarsLaw == phase = 1 => \A i \in 1..Len(run.log) : run.log[i].what = "vread" => VarsAgrees(tree, run.acts, run.log[i], "v")
 \* globals: a reader sees the latest A.globals.g executed before it in this call
 GlobalsLaw ==
   phase = 1 => \A i \in 1..Len(run.log) :
